@@ -45,7 +45,26 @@ def stampEq {S N H : Type} [DecidableEq S] [DecidableEq N] [DecidableEq H] (f : 
   (!f.cmpRule || decide (a.rule = b.rule)) && (!f.cmpSource || decide (a.ins = b.ins))
 
 variable {K A F N C S H : Type} [DecidableEq K] [DecidableEq S] [DecidableEq N] [DecidableEq H]
-variable (fx : Facts) (exec : A → List (N × C) → C) (ruleSer : A → S) (pathSer : C → H)
+/-- `moveOutput` as coded for declared outputs: an output whose hash is unchanged stays in place (when the
+    keep-old fact holds), otherwise the new one replaces it. -/
+def mvCoded {C H : Type} [DecidableEq H] (fx : Facts) (pathSer : C → H) (old new : C) : C :=
+  if fx.keepOld && decide (pathSer old = pathSer new) then old else new
+
+/-- What the theorems need from "moving outputs into plz-out": the result is the new output, or the old one
+    when it has the same pre-image.  `mvCoded` satisfies it; a move that lets parts of the old output linger does not. -/
+def MvOK {C H : Type} (pathSer : C → H) (mv : C → C → C) : Prop :=
+  ∀ old new, mv old new = new ∨ (pathSer old = pathSer new ∧ mv old new = old)
+
+theorem mvCoded_ok {C H : Type} [DecidableEq H] (fx : Facts) (pathSer : C → H) : MvOK pathSer (mvCoded fx pathSer) := by
+  intro old new
+  unfold mvCoded
+  by_cases h : (fx.keepOld && decide (pathSer old = pathSer new)) = true
+  · right
+    simp only [Bool.and_eq_true, decide_eq_true_eq] at h
+    exact ⟨h.2, by simp [h.1, h.2]⟩
+  · left; simp [h]
+
+variable (fx : Facts) (mv : C → C → C) (exec : A → List (N × C) → C) (ruleSer : A → S) (pathSer : C → H)
 
 /-- current outputs of the dependencies in plz-out (none when one is missing = dependency not built). -/
 def depIns (r : Repo K A F N C) (out : Out K C S N H) (deps : List K) : Option (List (N × C)) :=
@@ -68,7 +87,7 @@ def buildOne (r : Repo K A F N C) (out : Out K C S N H) (t : Target K A F) : Out
       if stampEq fx st0 st then (out, false)        -- needsBuilding = false
       else
         let c' := exec t.attrs ins
-        let keep := if fx.keepOld && decide (pathSer c = pathSer c') then c else c'   -- moveOutput: same hash ⇒ keep the old file
+        let keep := mv c c'                           -- moveOutput (same hash ⇒ the old file stays)
         (fun j => if j = t.key then some (keep, st) else out j, true)
     | none => (fun j => if j = t.key then some (exec t.attrs ins, st) else out j, true)
 
@@ -77,13 +96,13 @@ def buildList (r : Repo K A F N C) (sel : K → Bool) : List (Target K A F) → 
   | [], out => (out, [])
   | t :: ts, out =>
     if sel t.key then
-      let (out', ran) := buildOne fx exec ruleSer pathSer r out t
+      let (out', ran) := buildOne fx mv exec ruleSer pathSer r out t
       let (out'', rs) := buildList r sel ts out'
       (out'', if ran then t.key :: rs else rs)
     else buildList r sel ts out
 
 def build (r : Repo K A F N C) (sel : K → Bool) (out : Out K C S N H) : Out K C S N H × List K :=
-  buildList fx exec ruleSer pathSer r sel r.targets out
+  buildList fx mv exec ruleSer pathSer r sel r.targets out
 
 /-- Clean build: every selected target's output computed from scratch, in order. -/
 def cleanList (r : Repo K A F N C) (sel : K → Bool) : List (Target K A F) → List (K × C) → List (K × C)
